@@ -357,20 +357,22 @@ func checkTransportFactory(c *Ctx, r *Report) {
 		typ ssa.Value
 	}
 	var sites []site
-	for _, ci := range callInstrs(fn) {
-		sites = append(sites, site{ci, typeParam})
-		h := ci.Common().StaticCallee()
-		if h == nil || h.Pkg != fn.Pkg || len(h.Blocks) == 0 || h.Object() == nil || h.Object().Exported() {
-			continue
-		}
-		for ai, a := range ci.Common().Args {
-			if a == ssa.Value(typeParam) && ai < len(h.Params) {
-				for _, hc := range callInstrs(h) {
-					sites = append(sites, site{hc, h.Params[ai]})
+	var collect func(f *ssa.Function, typ ssa.Value, depth int)
+	collect = func(f *ssa.Function, typ ssa.Value, depth int) {
+		for _, ci := range callInstrs(f) {
+			sites = append(sites, site{ci, typ})
+			h := ci.Common().StaticCallee()
+			if depth <= 0 || h == nil || h.Pkg != fn.Pkg || len(h.Blocks) == 0 || h.Object() == nil || h.Object().Exported() {
+				continue
+			}
+			for ai, a := range ci.Common().Args {
+				if a == typ && ai < len(h.Params) {
+					collect(h, h.Params[ai], depth-1)
 				}
 			}
 		}
 	}
+	collect(fn, typeParam, 2)
 	for _, st := range sites {
 		ci, typeParam := st.ci, st.typ
 		sc := ci.Common().StaticCallee()
@@ -397,6 +399,33 @@ func checkTransportFactory(c *Ctx, r *Report) {
 					if !(name == "system" && s == "standard") && !(name == "standard" && s == "system") {
 						other = s
 					}
+				}
+			}
+		}
+		if !(guard && other == "") {
+			// nested selections (a shared case for two names, then an if/else between them): decide by the decision table
+			// of the enclosing function over the transport-type parameter
+			if tp, isParam := typeParam.(*ssa.Parameter); isParam {
+				host := ci.Parent()
+				key := "param:" + tp.Name()
+				paths := EnumeratePaths(c, host, &dtConfig{IsAtomCall: func(call *ssa.Call) bool { return false }})
+				okAll, n := len(paths) > 0, 0
+				for _, p := range paths {
+					if p.Undecided != "" {
+						okAll = false
+						break
+					}
+					for _, e := range p.Effects {
+						if e.Kind == "call" && e.Instr == ssa.Instruction(ci.(*ssa.Call)) {
+							n++
+							if p.Assume[key] != `="`+name+`"` {
+								okAll = false
+							}
+						}
+					}
+				}
+				if okAll && n > 0 {
+					guard, other = true, ""
 				}
 			}
 		}
